@@ -219,6 +219,10 @@ func (p *pool) runJobs(dir string, level int, srcs []string) []jobResult {
 						w.dead = e
 					}
 					w.ready = true
+					if p.ctx.Err() != nil {
+						res[i].err = "budget"
+						continue
+					}
 				}
 				if w.dead != "" {
 					res[i].err = w.dead
@@ -315,11 +319,13 @@ levels:
 		lv := map[string]int{"depth": d, "frontier_states": len(frontier), "jobs": njobs}
 		type succ struct{ path, key string }
 		var succs []succ
-		for _, jr := range results {
-			if jr.err == "budget" {
+		for _, jr := range results { // a level cut short by the budget is discarded as a whole
+			if jr.err == "budget" || (jr.err != "" && ctx.Err() != nil) {
 				r.MarkCapped()
 				break levels
 			}
+		}
+		for _, jr := range results {
 			if jr.err != "" {
 				harnessErr = jr.err
 				break levels
@@ -394,22 +400,36 @@ levels:
 		}
 	}
 	if harnessErr != "" {
+		pl.stop()
 		r.HarnessError("%s", harnessErr)
 	}
 	r.EvalN(checks)
 	r.OutcomeN("no-state-change(self-loop)", selfloops)
-	// violations: the shallowest level at which any occur, canonical order (deeper levels are not explored)
+	// violations: only the shallowest BFS level at which any occur is reported (deeper levels are not explored);
+	// they are grouped by signature (check + kind of the last operation) and at most 3 histories per signature,
+	// in canonical order, become VIOLATION keys - so that one defect does not drown another.
 	sort.Slice(viols, func(i, j int) bool {
 		if viols[i].path != viols[j].path {
 			return viols[i].path < viols[j].path
 		}
 		return viols[i].check < viols[j].check
 	})
-	for i, v := range viols {
-		if i >= 8 {
-			break
+	perSig := map[string]int{}
+	for _, v := range viols {
+		last := v.path[strings.LastIndex(v.path, ";")+1:]
+		if i := strings.Index(last, "("); i > 0 {
+			last = last[:i]
 		}
-		r.Violation(fmt.Sprintf("history=%s :: %s", v.path, v.check), map[string]any{"history": v.path, "check": v.check, "detail": v.detail})
+		chk := v.check
+		if i := strings.IndexAny(chk, " ("); i > 0 {
+			chk = chk[:i]
+		}
+		sig := chk + "/" + last
+		perSig[sig]++
+		if perSig[sig] > 3 || len(perSig) > 12 {
+			continue
+		}
+		r.Violation(fmt.Sprintf("history=%s :: %s", v.path, v.check), map[string]any{"history": v.path, "check": v.check, "detail": v.detail, "signature": sig})
 	}
 	r.Sample(map[string]any{"accounts": na, "plus_invalid_address": true, "amounts": amounts, "ops_per_state": nops,
 		"ops": "Mint(x,a) Burn(x,a) Transfer(x,y,a) Approve(x,y,a) TransferFrom(owner,spender,to,a) SpendAllowance(x,y,a)"})
@@ -422,11 +442,12 @@ levels:
 		"expansion calls the PrivateLedger API; replays of histories go through ImpersonateTeller for Transfer/Approve/TransferFrom; CallerTeller/RealmTeller (caller derived from the realm call stack) are not driven",
 		"HasAddr/KnownAccounts are part of the compared observable state for 'failing operations change nothing' but their success semantics are not modelled beyond internal consistency",
 	}
+	pl.stop()
 	exhaustive := completeDepth >= depth || len(frontier) == 0
 	r.Finish(fmt.Sprintf("BFS (written in Gno, executed by the GnoVM as a realm) over all histories of %d ledger operations (%d accounts + invalid address, %d amounts) up to depth %d with de-duplication on the observable state; every transition: success/failure and post-state (balances, allowances, supply) vs ledger model, supply==sum(balances), failing operation leaves every observable unchanged", nops, na, nam, depth),
 		exhaustive, map[string]any{
 			"states": states, "transitions": transitions, "traces_validated_against_impl": transitions,
 			"state_changing_transitions": transitions - selfloops, "depth": depth, "complete_depth": completeDepth,
-			"levels": perLevel, "api_checks": checks, "ledger_replays": builds, "ops_per_state": nops, "violating_observations": len(viols),
+			"levels": perLevel, "api_checks": checks, "ledger_replays": builds, "ops_per_state": nops, "violating_observations": len(viols), "violation_signatures": perSig,
 		})
 }
